@@ -1,7 +1,7 @@
 (* C10 — valid use is memory-safe and leak-free (the allocation-ledger half; the access-safety half is run-time). *)
 From Coq Require Import ZArith List Bool.
 Import ListNotations.
-Require Import SZV.Model.Ledger SZV.Proofs.Ledger_proofs.
+Require Import SZV.Model.Ledger SZV.Proofs.Ledger_proofs SZV.Model.RawCopy SZV.Proofs.RawCopy_proofs.
 Local Open Scope Z_scope.
 
 (* no per-call growth: after any history of calls the library owns at most its three parameter blocks *)
@@ -15,6 +15,25 @@ Theorem C10_balanced : forall h s, 0 <= caller (lrun h s) ->
 Proof. exact balanced. Qed.
 Print Assumptions C10_balanced.
 
+(* the raw-copy fall-back writes its record into the block of the stream it replaces: behind the guard the code has, the write stays inside *)
+Theorem C10_rawcopy_in_place : forall strict stream block meta szt w n,
+  stream <= block -> guard strict stream meta szt w n = true -> record_size meta szt w n <= block.
+Proof. exact guarded_write_fits. Qed.
+Print Assumptions C10_rawcopy_in_place.
+
+(* ... and behind a comparison with the raw data alone it does not *)
+Theorem C10_rawcopy_raw_only_guard_refuted : exists stream meta szt w n,
+  guard_raw_only stream w n = true /\ stream < record_size meta szt w n.
+Proof. exact raw_only_guard_refuted. Qed.
+Print Assumptions C10_rawcopy_raw_only_guard_refuted.
+
+(* every call site has the guard of the theorem (or a malloc of the record size right before it); read from the source on every run *)
+Theorem C10_rawcopy_source_facts : rawcopy_sites_ok = true.
+Proof. exact rawcopy_sites_hold. Qed.
+Print Assumptions C10_rawcopy_source_facts.
+
 Example C10_ex : ledger_trace [0; 1; 2; 3; 4; 4; 4; 4; 0; 1; 5] = [2; 2; 3; 3; 3; 3; 3; 3; 3; 3; 0]
   /\ total_live (lrun [LInit; LCompress; LDecompress; LMetadata; LCallerFree; LCallerFree; LCallerFree; LCallerFree; LFinalize] l0) = 0.
 Proof. split; vm_compute; reflexivity. Qed.
+Example C10_ex_rawcopy : guard true 130 28 8 4 21 = true /\ guard false 124 28 8 4 21 = true /\ guard true 124 28 8 4 21 = false.
+Proof. repeat split; vm_compute; reflexivity. Qed.
